@@ -10,10 +10,6 @@ From AK Require Import gen.C19_Consts C19.Model C19.Lemmas C19.LemmasOps C19.Lem
 Import ListNotations.
 Open Scope Z_scope.
 
-(* a flag name that add_argument accepts: not a standard option string, no '=' *)
-Definition user_flag (nl : bool) (o : str) : Prop :=
-  mem (flag_str o) (std_option_strings nl) = false /\ ~ In ch_eq o.
-
 Definition word (w : str) : Prop := starts_dash w = false.
 
 Definition poss_result (P : list str) (ws : list str) : list (str * list str) :=
@@ -22,30 +18,42 @@ Definition poss_result (P : list str) (ws : list str) : list (str * list str) :=
   | p0 :: ps => (p0, ws) :: map (fun p => (p, [])) ps
   end.
 
+(* no option string of the parser contains '=' *)
+Definition no_eq_names (F V : list str) : Prop := forall x, In x F \/ In x V -> ~ In ch_eq x.
+
 Record sub_spec_vec (sub : subparser) : Prop := {
-  sv_accept : forall nl F P os1 ws os2,
-      Forall (user_flag nl) (os1 ++ os2) -> Forall word ws ->
-      (sub nl F P (map flag_str os1 ++ ws ++ map flag_str os2) <> None <->
+  sv_accept : forall nl F P V os1 ws os2,
+      Forall (user_flag nl) (os1 ++ os2) -> Forall (fun o => ~ In o V) (os1 ++ os2) -> Forall word ws ->
+      (sub nl F P V (map flag_str os1 ++ ws ++ map flag_str os2) <> None <->
        (Forall (fun o => In o F) (os1 ++ os2) /\ (ws = [] \/ P <> [])));
-  sv_result : forall nl F P os1 ws os2 s,
-      Forall (user_flag nl) (os1 ++ os2) -> Forall word ws ->
-      sub nl F P (map flag_str os1 ++ ws ++ map flag_str os2) = Some s ->
+  sv_result : forall nl F P V os1 ws os2 s,
+      Forall (user_flag nl) (os1 ++ os2) -> Forall (fun o => ~ In o V) (os1 ++ os2) -> Forall word ws ->
+      sub nl F P V (map flag_str os1 ++ ws ++ map flag_str os2) = Some s ->
       sn_flags s = map (fun o => (o, mem o (os1 ++ os2))) F /\
       sn_poss s = poss_result P ws /\
+      sn_vals s = map (fun o => (o, None)) V /\
       sn_verbose s = 0%nat /\ sn_color s = CStr color_default /\ sn_no_color s = false;
   (* a parser without positionals rejects a vector that starts with a word *)
-  sv_word_no_pos : forall nl F w r, word w -> sub nl F [] (w :: r) = None
+  sv_word_no_pos : forall nl F V w r, word w -> sub nl F [] V (w :: r) = None;
+  (* '--o VALUE' and '--o=VALUE': accepted iff o is a value option of the parser;
+     the namespace holds the value, the other value options stay None *)
+  sv_value : forall nl F P V o v,
+      user_flag nl o -> ~ In o F -> word v ->
+      (sub nl F P V [flag_str o; v] <> None <-> In o V) /\
+      forall s, sub nl F P V [flag_str o; v] = Some s ->
+        sn_vals s = map (fun x => (x, if str_eqb x o then Some v else None)) V;
+  sv_value_eq : forall nl F P V o v,
+      user_flag nl o -> no_eq_names F V ->
+      (sub nl F P V [flag_str o ++ ch_eq :: v] <> None <-> In o V) /\
+      forall s, sub nl F P V [flag_str o ++ ch_eq :: v] = Some s ->
+        sn_vals s = map (fun x => (x, if str_eqb x o then Some v else None)) V
 }.
 
 (* ------------------------------------------------------------------ *)
 (* the stand-in on flags and words                                       *)
 
-Definition push_flag (o : str) (a : acc) : acc :=
-  mkAcc (a_verbose a) (a_color a) (a_seen_color a) (a_no_color a) (o :: a_set a) (a_words a)
-        (match a_blk a with BOpen => BClosed | b => b end).
-
 Definition push_word (w : str) (a : acc) : acc :=
-  mkAcc (a_verbose a) (a_color a) (a_seen_color a) (a_no_color a) (a_set a) (a_words a ++ [w]) BOpen.
+  mkAcc (a_verbose a) (a_color a) (a_seen_color a) (a_no_color a) (a_set a) (a_words a ++ [w]) BOpen (a_given a).
 
 Fixpoint push_flags (os : list str) (a : acc) : acc :=
   match os with [] => a | o :: r => push_flags r (push_flag o a) end.
@@ -53,58 +61,40 @@ Fixpoint push_flags (os : list str) (a : acc) : acc :=
 Fixpoint push_words (ws : list str) (a : acc) : acc :=
   match ws with [] => a | w :: r => push_words r (push_word w a) end.
 
-Lemma mini_go_flag_step nl F P o r a :
-  user_flag nl o ->
-  mini_go nl F P (flag_str o :: r) a = if mem o F then mini_go nl F P r (push_flag o a) else None.
+Lemma mini_go_flag_step nl F P V o r a :
+  user_flag nl o -> ~ In o V ->
+  mini_go nl F P V (flag_str o :: r) a = if mem o F then mini_go nl F P V r (push_flag o a) else None.
 Proof.
-  intros (Hstd & Heq).
-  destruct (std_strings_have nl) as (I1 & I2 & I3).
-  pose proof (mem_false_each _ _ Hstd) as E.
-  assert (strip_prefix (opt_color ++ [ch_eq]) (flag_str o) = None) as Hsp.
-  { destruct (strip_prefix (opt_color ++ [ch_eq]) (flag_str o)) as [r0|] eqn:Es; [|reflexivity].
-    exfalso. apply strip_prefix_some in Es. destruct opt_color_dashes as (w & Ew).
-    rewrite Ew in Es. unfold flag_str in Es. cbn [app] in Es. inversion Es as [Eo].
-    apply Heq. rewrite Eo. rewrite <- app_assoc. apply in_or_app. right. left. reflexivity. }
-  cbn [mini_go]. replace (starts_dash (flag_str o)) with true by reflexivity. cbn [negb].
-  rewrite (E _ I1), Hsp, (E _ I2).
-  assert ((negb nl && str_eqb (flag_str o) opt_verbose_long) = false) as ->.
-  { destruct nl; [reflexivity|]. cbn [negb andb]. apply E. apply I3. reflexivity. }
-  assert ((if nl then None else short_verbose_count (flag_str o)) = None) as ->.
-  { destruct nl; [reflexivity|]. unfold short_verbose_count, flag_str.
-    replace (ch_dash =? ch_dash) with true by reflexivity. cbn [andb forallb].
-    rewrite verbose_letter_not_dash. reflexivity. }
-  replace (strip_prefix [ch_dash; ch_dash] (flag_str o)) with (Some o)
-    by (symmetry; apply (strip_prefix_app [ch_dash; ch_dash] o)).
-  destruct (mem o F); reflexivity.
+  intros U HV. rewrite (mini_go_opt_step nl F P V o r a U). apply mem_false in HV. rewrite HV. reflexivity.
 Qed.
 
-Lemma mini_go_flags nl F P os : forall r a,
-  Forall (user_flag nl) os ->
-  mini_go nl F P (map flag_str os ++ r) a =
-  if forallb (fun o => mem o F) os then mini_go nl F P r (push_flags os a) else None.
+Lemma mini_go_flags nl F P V os : forall r a,
+  Forall (user_flag nl) os -> Forall (fun o => ~ In o V) os ->
+  mini_go nl F P V (map flag_str os ++ r) a =
+  if forallb (fun o => mem o F) os then mini_go nl F P V r (push_flags os a) else None.
 Proof.
-  induction os as [|o os IH]; intros r a H; cbn [map app forallb push_flags]; [reflexivity|].
-  inversion H as [|x l Ho Hos]. subst.
-  rewrite (mini_go_flag_step nl F P o _ a Ho).
-  destruct (mem o F); cbn [andb]; [apply IH; exact Hos|reflexivity].
+  induction os as [|o os IH]; intros r a H HV; cbn [map app forallb push_flags]; [reflexivity|].
+  inversion H as [|x l Ho Hos]. inversion HV as [|x' l' Hv Hvs]. subst.
+  rewrite (mini_go_flag_step nl F P V o _ a Ho Hv).
+  destruct (mem o F); cbn [andb]; [apply IH; assumption|reflexivity].
 Qed.
 
-Lemma mini_go_word_step nl F P w r a :
+Lemma mini_go_word_step nl F P V w r a :
   word w ->
-  mini_go nl F P (w :: r) a =
+  mini_go nl F P V (w :: r) a =
   match a_blk a with
   | BClosed => None
-  | _ => if is_nil P then None else mini_go nl F P r (push_word w a)
+  | _ => if is_nil P then None else mini_go nl F P V r (push_word w a)
   end.
 Proof. intros H. unfold word in H. cbn [mini_go]. rewrite H. reflexivity. Qed.
 
-Lemma mini_go_words nl F P ws : forall r a,
+Lemma mini_go_words nl F P V ws : forall r a,
   Forall word ws -> P <> [] -> a_blk a <> BClosed ->
-  mini_go nl F P (ws ++ r) a = mini_go nl F P r (push_words ws a).
+  mini_go nl F P V (ws ++ r) a = mini_go nl F P V r (push_words ws a).
 Proof.
   induction ws as [|w ws IH]; intros r a H HP Hb; cbn [app push_words]; [reflexivity|].
   inversion H as [|x l Hw Hws]. subst.
-  rewrite (mini_go_word_step nl F P w _ a Hw).
+  rewrite (mini_go_word_step nl F P V w _ a Hw).
   destruct P as [|p0 ps]; [congruence|]. cbn [is_nil].
   destruct (a_blk a) eqn:Eb; [| |congruence]; apply IH; auto; cbn; discriminate.
 Qed.
@@ -113,12 +103,12 @@ Qed.
 Lemma push_flags_fields os : forall a,
   a_verbose (push_flags os a) = a_verbose a /\ a_color (push_flags os a) = a_color a /\
   a_no_color (push_flags os a) = a_no_color a /\ a_words (push_flags os a) = a_words a /\
-  a_set (push_flags os a) = rev os ++ a_set a /\
+  a_set (push_flags os a) = rev os ++ a_set a /\ a_given (push_flags os a) = a_given a /\
   (a_blk a = BNone -> a_blk (push_flags os a) = BNone).
 Proof.
   induction os as [|o os IH]; intros a; cbn [push_flags rev app]; [repeat split; auto|].
-  destruct (IH (push_flag o a)) as (H1 & H2 & H3 & H4 & H5 & H6).
-  rewrite H1, H2, H3, H4, H5. cbn [push_flag a_verbose a_color a_no_color a_words a_set a_blk].
+  destruct (IH (push_flag o a)) as (H1 & H2 & H3 & H4 & H5 & H5g & H6).
+  rewrite H1, H2, H3, H4, H5, H5g. cbn [push_flag a_verbose a_color a_no_color a_words a_set a_blk a_given].
   rewrite <- app_assoc. repeat split; auto.
   intros Hb. apply H6. cbn [push_flag a_blk]. rewrite Hb. reflexivity.
 Qed.
@@ -126,11 +116,11 @@ Qed.
 Lemma push_words_fields ws : forall a,
   a_verbose (push_words ws a) = a_verbose a /\ a_color (push_words ws a) = a_color a /\
   a_no_color (push_words ws a) = a_no_color a /\ a_words (push_words ws a) = a_words a ++ ws /\
-  a_set (push_words ws a) = a_set a.
+  a_set (push_words ws a) = a_set a /\ a_given (push_words ws a) = a_given a.
 Proof.
   induction ws as [|w ws IH]; intros a; cbn [push_words]; [rewrite app_nil_r; repeat split; auto|].
-  destruct (IH (push_word w a)) as (H1 & H2 & H3 & H4 & H5).
-  rewrite H1, H2, H3, H4, H5. cbn [push_word a_verbose a_color a_no_color a_words a_set].
+  destruct (IH (push_word w a)) as (H1 & H2 & H3 & H4 & H5 & H6).
+  rewrite H1, H2, H3, H4, H5, H6. cbn [push_word a_verbose a_color a_no_color a_words a_set a_given].
   rewrite <- app_assoc. repeat split; auto.
 Qed.
 
@@ -147,36 +137,106 @@ Proof.
 Qed.
 
 (* the vector  flags os1, words ws, flags os2  from the initial state *)
-Lemma mini_go_vector nl F P os1 ws os2 :
-  Forall (user_flag nl) (os1 ++ os2) -> Forall word ws ->
-  mini_go nl F P (map flag_str os1 ++ ws ++ map flag_str os2) acc0 =
+Lemma mini_go_vector nl F P V os1 ws os2 :
+  Forall (user_flag nl) (os1 ++ os2) -> Forall (fun o => ~ In o V) (os1 ++ os2) -> Forall word ws ->
+  mini_go nl F P V (map flag_str os1 ++ ws ++ map flag_str os2) acc0 =
   if forallb (fun o => mem o F) (os1 ++ os2) && (is_nil ws || negb (is_nil P))
   then Some (push_flags os2 (push_words ws (push_flags os1 acc0)))
   else None.
 Proof.
-  intros HF HW. apply Forall_app in HF as (H1 & H2).
-  rewrite (mini_go_flags nl F P os1 _ acc0 H1). rewrite forallb_app.
+  intros HF HV HW. apply Forall_app in HF as (H1 & H2). apply Forall_app in HV as (V1 & V2).
+  rewrite (mini_go_flags nl F P V os1 _ acc0 H1 V1). rewrite forallb_app.
   destruct (forallb (fun o => mem o F) os1); cbn [andb]; [|reflexivity].
-  destruct (push_flags_fields os1 acc0) as (_ & _ & _ & _ & _ & B1).
+  destruct (push_flags_fields os1 acc0) as (_ & _ & _ & _ & _ & _ & B1).
   specialize (B1 eq_refl).
   destruct ws as [|w ws].
   - cbn [app is_nil orb push_words]. rewrite andb_true_r.
-    rewrite <- (app_nil_r (map flag_str os2)). rewrite (mini_go_flags nl F P os2 [] _ H2).
+    rewrite <- (app_nil_r (map flag_str os2)). rewrite (mini_go_flags nl F P V os2 [] _ H2 V2).
     destruct (forallb (fun o => mem o F) os2); reflexivity.
   - cbn [is_nil orb]. destruct P as [|p0 ps].
     + cbn [is_nil negb]. rewrite andb_false_r.
       inversion HW as [|x l Hw _]. subst. cbn [app].
-      rewrite (mini_go_word_step nl F [] w _ _ Hw). rewrite B1. reflexivity.
+      rewrite (mini_go_word_step nl F [] V w _ _ Hw). rewrite B1. reflexivity.
     + cbn [is_nil negb]. rewrite andb_true_r.
-      rewrite (mini_go_words nl F (p0 :: ps) (w :: ws) _ _ HW); [|discriminate|rewrite B1; discriminate].
-      rewrite <- (app_nil_r (map flag_str os2)). rewrite (mini_go_flags nl F (p0 :: ps) os2 [] _ H2).
+      rewrite (mini_go_words nl F (p0 :: ps) V (w :: ws) _ _ HW); [|discriminate|rewrite B1; discriminate].
+      rewrite <- (app_nil_r (map flag_str os2)). rewrite (mini_go_flags nl F (p0 :: ps) V os2 [] _ H2 V2).
       destruct (forallb (fun o => mem o F) os2); reflexivity.
 Qed.
+
+(* '--o=VALUE' *)
+Lemma split_first_at sep a b : ~ In sep a -> split_first sep (a ++ sep :: b) = Some (a, b).
+Proof.
+  induction a as [|c r IH]; intros H; cbn [app split_first].
+  - rewrite Z.eqb_refl. reflexivity.
+  - destruct (Z.eqb_spec c sep) as [->|N]; [exfalso; apply H; left; reflexivity|].
+    rewrite IH; [reflexivity|]. intros Hi. apply H. right. exact Hi.
+Qed.
+
+Lemma app_sep_unique (c : Z) a b x y : ~ In c a -> ~ In c b -> a ++ c :: x = b ++ c :: y -> a = b.
+Proof.
+  revert b. induction a as [|h a IH]; intros b Ha Hb E; destruct b as [|h' b]; cbn [app] in E.
+  - reflexivity.
+  - inversion E. subst. exfalso. apply Hb. left. reflexivity.
+  - inversion E. subst. exfalso. apply Ha. left. reflexivity.
+  - inversion E. subst. f_equal. apply (IH b); [intros H; apply Ha; right; exact H|intros H; apply Hb; right; exact H|assumption].
+Qed.
+
+Lemma std_consts_no_eq :
+  (exists w, opt_color = ch_dash :: ch_dash :: w /\ ~ In ch_eq w) /\
+  ~ In ch_eq opt_no_color /\ ~ In ch_eq opt_verbose_long.
+Proof.
+  split; [eexists; split; [reflexivity|]|split];
+    vm_compute; intros H; repeat (destruct H as [H|H]; [discriminate|]); exact H.
+Qed.
+
+Lemma str_eqb_has_eq x c : In ch_eq x -> ~ In ch_eq c -> str_eqb x c = false.
+Proof. intros H1 H2. apply str_eqb_neq. intros ->. contradiction. Qed.
+
+Lemma mini_go_eq_step nl F P V o v r a :
+  user_flag nl o -> no_eq_names F V ->
+  mini_go nl F P V ((flag_str o ++ ch_eq :: v) :: r) a =
+  if mem o V then mini_go nl F P V r (give o v (close_blk a)) else None.
+Proof.
+  intros (Hstd & Heq) NE.
+  destruct (std_strings_have nl) as (I1 & I2 & I3).
+  pose proof (mem_false_each _ _ Hstd) as E.
+  destruct std_consts_no_eq as ((w & Ew & Nw) & N2 & N3).
+  set (x := flag_str o ++ ch_eq :: v).
+  assert (In ch_eq x) as Hx by (unfold x; apply in_or_app; right; left; reflexivity).
+  assert (x = ch_dash :: ch_dash :: (o ++ ch_eq :: v)) as Ex by reflexivity.
+  assert (str_eqb x opt_color = false) as C1.
+  { apply str_eqb_has_eq; [exact Hx|]. rewrite Ew. intros [H|[H|H]]; [discriminate H|discriminate H|contradiction]. }
+  assert (strip_prefix (opt_color ++ [ch_eq]) x = None) as Hsp.
+  { destruct (strip_prefix (opt_color ++ [ch_eq]) x) as [r0|] eqn:Es; [|reflexivity].
+    exfalso. apply strip_prefix_some in Es. rewrite Ex, Ew in Es. cbn [app] in Es. inversion Es as [Eo].
+    rewrite <- app_assoc in Eo. cbn [app] in Eo.
+    apply (app_sep_unique ch_eq o w v r0 Heq Nw) in Eo. subst w.
+    pose proof (E _ I1) as X. rewrite Ew in X. unfold flag_str in X. rewrite str_eqb_refl in X. discriminate. }
+  cbn [mini_go]. fold x. replace (starts_dash x) with true by reflexivity. cbn [negb].
+  rewrite C1, Hsp, (str_eqb_has_eq x _ Hx N2).
+  assert ((negb nl && str_eqb x opt_verbose_long) = false) as ->.
+  { rewrite (str_eqb_has_eq x _ Hx N3). apply andb_false_r. }
+  assert ((if nl then None else short_verbose_count x) = None) as ->.
+  { destruct nl; [reflexivity|]. rewrite Ex. unfold short_verbose_count.
+    replace (ch_dash =? ch_dash) with true by reflexivity. cbn [andb forallb].
+    rewrite verbose_letter_not_dash. reflexivity. }
+  replace (strip_prefix [ch_dash; ch_dash] x) with (Some (o ++ ch_eq :: v))
+    by (symmetry; rewrite Ex; apply (strip_prefix_app [ch_dash; ch_dash] (o ++ ch_eq :: v))).
+  assert (In ch_eq (o ++ ch_eq :: v)) as Hov by (apply in_or_app; right; left; reflexivity).
+  assert (mem (o ++ ch_eq :: v) F = false) as ->.
+  { apply mem_false. intros H. exact (NE _ (or_introl H) Hov). }
+  assert (mem (o ++ ch_eq :: v) V = false) as ->.
+  { apply mem_false. intros H. exact (NE _ (or_intror H) Hov). }
+  rewrite (split_first_at ch_eq o v Heq). reflexivity.
+Qed.
+
+Lemma lookup_single (x o v : str) : lookup x [(o, v)] = if str_eqb x o then Some v else None.
+Proof. reflexivity. Qed.
 
 Lemma mini_sub_spec_vec : sub_spec_vec mini_sub.
 Proof.
   constructor.
-  - intros nl F P os1 ws os2 HF HW. rewrite mini_sub_some. rewrite (mini_go_vector nl F P os1 ws os2 HF HW).
+  - intros nl F P V os1 ws os2 HF HV HW. rewrite mini_sub_some. rewrite (mini_go_vector nl F P V os1 ws os2 HF HV HW).
     destruct (forallb (fun o => mem o F) (os1 ++ os2)) eqn:E1; cbn [andb].
     + apply forallb_mem_Forall in E1.
       destruct ws as [|w ws]; cbn [is_nil orb].
@@ -185,18 +245,351 @@ Proof.
         -- split; [congruence|]. intros (_ & [H|H]); [discriminate|congruence].
         -- split; [intros _; split; [exact E1|right; discriminate]|discriminate].
     + split; [congruence|]. intros (H & _). apply forallb_mem_Forall in H. congruence.
-  - intros nl F P os1 ws os2 s HF HW. unfold mini_sub. fold acc0.
-    rewrite (mini_go_vector nl F P os1 ws os2 HF HW).
+  - intros nl F P V os1 ws os2 s HF HV HW. unfold mini_sub. fold acc0.
+    rewrite (mini_go_vector nl F P V os1 ws os2 HF HV HW).
     destruct (forallb (fun o => mem o F) (os1 ++ os2) && (is_nil ws || negb (is_nil P))); [|discriminate].
-    intros [= <-]. cbn [sn_flags sn_poss sn_verbose sn_color sn_no_color].
-    destruct (push_flags_fields os2 (push_words ws (push_flags os1 acc0))) as (A1 & A2 & A3 & A4 & A5 & _).
-    destruct (push_words_fields ws (push_flags os1 acc0)) as (B1 & B2 & B3 & B4 & B5).
-    destruct (push_flags_fields os1 acc0) as (C1 & C2 & C3 & C4 & C5 & _).
-    rewrite A1, A2, A3, A4, A5, B1, B2, B3, B4, B5, C1, C2, C3, C4, C5.
-    cbn [acc0 a_verbose a_color a_no_color a_words a_set app]. rewrite app_nil_r.
+    intros [= <-]. cbn [sn_flags sn_poss sn_vals sn_verbose sn_color sn_no_color].
+    destruct (push_flags_fields os2 (push_words ws (push_flags os1 acc0))) as (A1 & A2 & A3 & A4 & A5 & A6 & _).
+    destruct (push_words_fields ws (push_flags os1 acc0)) as (B1 & B2 & B3 & B4 & B5 & B6).
+    destruct (push_flags_fields os1 acc0) as (C1 & C2 & C3 & C4 & C5 & C6 & _).
+    rewrite A1, A2, A3, A4, A5, A6, B1, B2, B3, B4, B5, B6, C1, C2, C3, C4, C5, C6.
+    cbn [acc0 a_verbose a_color a_no_color a_words a_set a_given app]. rewrite app_nil_r.
     split; [|repeat split; reflexivity].
     apply map_ext. intros o. f_equal. apply mem_ext.
     rewrite !in_app_iff, <- !in_rev. tauto.
-  - intros nl F w r Hw. unfold mini_sub. fold acc0. rewrite (mini_go_word_step nl F [] w r acc0 Hw).
+  - intros nl F V w r Hw. unfold mini_sub. fold acc0. rewrite (mini_go_word_step nl F [] V w r acc0 Hw).
     reflexivity.
+  - intros nl F P V o v U HF Hv. unfold word in Hv.
+    assert (mini_go nl F P V [flag_str o; v] acc0 = if mem o V then Some (give o v (close_blk acc0)) else None) as K.
+    { rewrite (mini_go_opt_step nl F P V o [v] acc0 U). apply mem_false in HF. rewrite HF, Hv.
+      destruct (mem o V); reflexivity. }
+    split.
+    + rewrite mini_sub_some, K. destruct (mem o V) eqn:Em.
+      * split; [intros _; apply mem_In; exact Em|discriminate].
+      * split; [congruence|]. intros H. apply mem_In in H. congruence.
+    + intros s. unfold mini_sub. fold acc0. rewrite K. destruct (mem o V); [|discriminate].
+      intros [= <-]. reflexivity.
+  - intros nl F P V o v U NE.
+    assert (mini_go nl F P V [flag_str o ++ ch_eq :: v] acc0 =
+            if mem o V then Some (give o v (close_blk acc0)) else None) as K.
+    { rewrite (mini_go_eq_step nl F P V o v [] acc0 U NE). destruct (mem o V); reflexivity. }
+    split.
+    + rewrite mini_sub_some, K. destruct (mem o V) eqn:Em.
+      * split; [intros _; apply mem_In; exact Em|discriminate].
+      * split; [congruence|]. intros H. apply mem_In in H. congruence.
+    + intros s. unfold mini_sub. fold acc0. rewrite K. destruct (mem o V); [|discriminate].
+      intros [= <-]. reflexivity.
+Qed.
+
+(* ------------------------------------------------------------------ *)
+(* what the parser of a command holds after the configuration            *)
+
+Lemma configured_command_full ds nl ops st' d :
+  configured ds nl ops st' -> In d ds -> d_internal d = false ->
+  exists pa, lookup (d_name d) st' = Some pa /\ p_internal pa = false /\
+    (forall k o, In o (p_list k pa) <-> exists t, In (t, k, o) ops /\ in_scope ds t (d_name d)).
+Proof.
+  intros C Hd Hi.
+  destruct (configured_command ds nl ops st' d C Hd Hi) as (pa & L & Pi & _).
+  exists pa. split; [exact L|]. split; [exact Pi|].
+  destruct C as (st & B & OK & A).
+  destruct (apply_ops_ok ds st nl ops B OK) as (st2 & A2 & I).
+  rewrite A in A2. inversion A2. subst st2. clear A2.
+  apply lookup_some_in in L.
+  destruct (Forall2_in_r _ _ _ _ I L) as (d' & _ & (E1 & _ & _ & _ & _ & E6)).
+  cbn [fst snd] in *. rewrite <- E1 in E6. exact E6.
+Qed.
+
+(* the names of the add_argument calls are distinct: a name is of one kind *)
+Lemma configured_kind ds nl ops st' t k o t' k' :
+  configured ds nl ops st' -> In (t, k, o) ops -> In (t', k', o) ops -> t = t' /\ k = k'.
+Proof. intros (st & _ & (ND & _) & _). apply op_name_inj. exact ND. Qed.
+
+Lemma configured_user_flag ds nl ops st' t k o :
+  configured ds nl ops st' -> In (t, k, o) ops -> is_optional k = true ->
+  mem (flag_str o) (std_option_strings nl) = false.
+Proof.
+  intros (st & _ & (_ & F) & _) Ho Hk. rewrite Forall_forall in F.
+  destruct (F _ Ho) as (_ & H). apply H. exact Hk.
+Qed.
+
+Definition vec_tokens (tos : list (target * str)) : list str := map (fun x => flag_str (snd x)) tos.
+
+Lemma vec_tokens_map tos : vec_tokens tos = map flag_str (map snd tos).
+Proof. unfold vec_tokens. rewrite map_map. reflexivity. Qed.
+
+(* the flags of a vector: each was added by an add_argument call of [ops] *)
+Definition added_flags (ops : list op) (tos : list (target * str)) : Prop :=
+  Forall (fun x => In (fst x, KFlag, snd x) ops /\ ~ In ch_eq (snd x)) tos.
+
+Lemma added_user_flags ds nl ops st' tos :
+  configured ds nl ops st' -> added_flags ops tos -> Forall (user_flag nl) (map snd tos).
+Proof.
+  intros C H. apply Forall_map. eapply Forall_impl; [|exact H].
+  intros x (Hx & He). split; [eapply configured_user_flag; [eassumption|eassumption|reflexivity]|exact He].
+Qed.
+
+(* ... and none of them is a value option of a command's parser *)
+Lemma added_not_vals ds nl ops st' d pa tos :
+  configured ds nl ops st' ->
+  (forall k o, In o (p_list k pa) <-> exists t, In (t, k, o) ops /\ in_scope ds t (d_name d)) ->
+  added_flags ops tos -> Forall (fun o => ~ In o (p_vals pa)) (map snd tos).
+Proof.
+  intros C Fl H. apply Forall_map. eapply Forall_impl; [|exact H].
+  intros x (Hx & _) Hv. apply (Fl KVal) in Hv. destruct Hv as (t' & H1 & _).
+  destruct (configured_kind ds nl ops st' _ _ _ _ _ C Hx H1) as (_ & [=]).
+Qed.
+
+(* option scope on vectors: "d --f1 .. w1 .. wm --g1 .." is accepted iff every
+   flag is in scope of d and, when there are words, some positional is *)
+Lemma option_scope_vec_l sub : sub_spec_vec sub ->
+  forall ds c0 ops st' dflt d,
+  configured ds (c_no_log c0) ops st' ->
+  In d ds -> d_internal d = false -> starts_dash (d_name d) = false ->
+  forall tos1 ws tos2, added_flags ops (tos1 ++ tos2) -> Forall word ws ->
+  (accepted (parse_args sub c0 st' dflt (d_name d :: vec_tokens tos1 ++ ws ++ vec_tokens tos2)) <->
+   Forall (fun x => in_scope ds (fst x) (d_name d)) (tos1 ++ tos2) /\
+   (ws = [] \/ exists t p, In (t, KPos, p) ops /\ in_scope ds t (d_name d))).
+Proof.
+  intros SV ds c0 ops st' dflt d C Hd Hi Hdash tos1 ws tos2 HA HW.
+  destruct (configured_command_full ds _ ops st' d C Hd Hi) as (pa & L & Pi & Fl).
+  rewrite (accepted_command sub c0 st' dflt _ _ pa Hdash L Pi).
+  pose proof (added_user_flags ds _ ops st' _ C HA) as UF. rewrite map_app in UF.
+  pose proof (added_not_vals ds _ ops st' d pa _ C Fl HA) as NV. rewrite map_app in NV.
+  rewrite !vec_tokens_map. rewrite (sv_accept sub SV _ (p_flags pa) (p_poss pa) (p_vals pa) _ ws _ UF NV HW).
+  rewrite <- map_app, Forall_map.
+  assert (Forall (fun x => In (snd x) (p_flags pa)) (tos1 ++ tos2) <->
+          Forall (fun x => in_scope ds (fst x) (d_name d)) (tos1 ++ tos2)) as ->.
+  { unfold added_flags in HA. rewrite !Forall_forall in *. split; intros H x Hx; destruct (HA x Hx) as (Ho & _).
+    - specialize (H x Hx). apply (Fl KFlag) in H. destruct H as (t' & H1 & H2).
+      destruct (configured_kind ds _ ops st' _ _ _ _ _ C Ho H1) as (-> & _). exact H2.
+    - apply (Fl KFlag). exists (fst x). auto. }
+  assert (p_poss pa <> [] <-> exists t p, In (t, KPos, p) ops /\ in_scope ds t (d_name d)) as ->; [|tauto].
+  split.
+  - intros H. destruct (p_poss pa) as [|p0 ps] eqn:E; [congruence|].
+    destruct (proj1 (Fl KPos p0)) as (t & H1 & H2); [cbn [p_list]; rewrite E; left; reflexivity|]. eauto.
+  - intros (t & p & H1 & H2) E. assert (In p (p_poss pa)) as H by (apply (Fl KPos); eauto).
+    rewrite E in H. destruct H.
+Qed.
+
+(* ... and the namespace it yields *)
+Lemma vec_namespace_l sub : sub_spec_vec sub ->
+  forall ds c0 ops st' dflt d,
+  configured ds (c_no_log c0) ops st' ->
+  In d ds -> d_internal d = false -> starts_dash (d_name d) = false ->
+  forall tos1 ws tos2, added_flags ops (tos1 ++ tos2) -> Forall word ws ->
+  forall n, parse_args sub c0 st' dflt (d_name d :: vec_tokens tos1 ++ ws ++ vec_tokens tos2) = Ret n ->
+  ns_command n = d_name d /\
+  (forall o b, In (o, b) (ns_flags n) <->
+     (exists t, In (t, KFlag, o) ops /\ in_scope ds t (d_name d)) /\ b = mem o (map snd (tos1 ++ tos2))) /\
+  (ws <> [] -> exists p0 rest, ns_poss n = (p0, ws) :: rest /\
+     (exists t, In (t, KPos, p0) ops /\ in_scope ds t (d_name d)) /\ Forall (fun e => snd e = []) rest) /\
+  (forall o x, In (o, x) (ns_vals n) <->
+     (exists t, In (t, KVal, o) ops /\ in_scope ds t (d_name d)) /\ x = None) /\
+  ns_verbose n = (if c_no_log c0 then None else Some 0%nat) /\ ns_color n = CStr color_default.
+Proof.
+  intros SV ds c0 ops st' dflt d C Hd Hi Hdash tos1 ws tos2 HA HW n.
+  destruct (configured_command_full ds _ ops st' d C Hd Hi) as (pa & L & Pi & Fl).
+  rewrite (parse_args_command sub c0 st' dflt _ _ pa Hdash L Pi).
+  pose proof (added_user_flags ds _ ops st' _ C HA) as UF. rewrite map_app in UF.
+  pose proof (added_not_vals ds _ ops st' d pa _ C Fl HA) as NV. rewrite map_app in NV.
+  rewrite !vec_tokens_map.
+  destruct (sub (c_no_log c0) (p_flags pa) (p_poss pa) (p_vals pa) _) as [s|] eqn:E; [|discriminate].
+  intros [= <-].
+  destruct (sv_result sub SV _ _ _ _ _ ws _ s UF NV HW E) as (R1 & R2 & R2v & R3 & R4 & R5).
+  assert (sub (c_no_log c0) (p_flags pa) (p_poss pa) (p_vals pa)
+              (map flag_str (map snd tos1) ++ ws ++ map flag_str (map snd tos2)) <> None) as NN by congruence.
+  apply (sv_accept sub SV _ _ _ _ _ ws _ UF NV HW) in NN. destruct NN as (_ & NP).
+  cbn [finish ns_command ns_flags ns_poss ns_vals ns_verbose ns_color]. rewrite R1, R2, R2v, R3, R4, R5.
+  split; [reflexivity|]. split; [|split; [|split; [|split; reflexivity]]].
+  - intros o b. rewrite in_map_iff, <- map_app. split.
+    + intros (o' & [= <- <-] & Ho). split; [apply (Fl KFlag); exact Ho|reflexivity].
+    + intros (Ho & ->). exists o. split; [reflexivity|apply (Fl KFlag); exact Ho].
+  - intros Hws. destruct NP as [NP|NP]; [contradiction|].
+    destruct (p_poss pa) as [|p0 ps] eqn:EP; [congruence|]. cbn [poss_result].
+    exists p0, (map (fun p => (p, [])) ps). split; [reflexivity|]. split.
+    + apply (Fl KPos). cbn [p_list]. rewrite EP. left. reflexivity.
+    + apply Forall_map. apply Forall_forall. reflexivity.
+  - intros o x. rewrite in_map_iff. split.
+    + intros (o' & [= <- <-] & Ho). split; [apply (Fl KVal); exact Ho|reflexivity].
+    + intros (Ho & ->). exists o. split; [reflexivity|apply (Fl KVal); exact Ho].
+Qed.
+
+(* ------------------------------------------------------------------ *)
+(* default command                                                      *)
+
+Lemma help_choices_std nl a : In a help_choices -> In a (std_option_strings nl).
+Proof.
+  unfold help_choices. cbn [In]. intros H.
+  repeat (destruct H as [<-|H]; [destruct nl; vm_compute; auto 10|]). destruct H.
+Qed.
+
+Lemma word_not_help w : word w -> ~ In w help_choices.
+Proof.
+  intros Hw Hi. pose proof help_choices_dashed as D. rewrite forallb_forall in D.
+  unfold word in Hw. rewrite (D _ Hi) in Hw. discriminate.
+Qed.
+
+(* the first token of a vector of added flags and words is not a help option *)
+Lemma vec_head_not_help ds nl ops st' tos1 ws tos2 a :
+  configured ds nl ops st' -> added_flags ops (tos1 ++ tos2) -> Forall word ws ->
+  hd_error (vec_tokens tos1 ++ ws ++ vec_tokens tos2) = Some a -> ~ In a help_choices.
+Proof.
+  intros C HA HW Hh Hi.
+  pose proof (added_user_flags ds nl ops st' _ C HA) as UF. rewrite map_app in UF.
+  apply Forall_app in UF as (U1 & U2).
+  assert (forall os, Forall (user_flag nl) os -> forall x, hd_error (map flag_str os) = Some x -> ~ In x help_choices) as K.
+  { intros os U x Hx Hin. destruct os as [|o os]; [discriminate|]. cbn in Hx. inversion Hx. subst x.
+    inversion U as [|y l (Hy & _) _]. subst. apply (help_choices_std nl) in Hin. apply mem_In in Hin. congruence. }
+  rewrite !vec_tokens_map in Hh.
+  destruct (map flag_str (map snd tos1)) as [|x r] eqn:E1.
+  - cbn [app] in Hh. destruct ws as [|w ws'].
+    + cbn [app] in Hh. exact (K _ U2 a Hh Hi).
+    + cbn in Hh. inversion Hh. subst a. inversion HW. subst. exact (word_not_help w H1 Hi).
+  - cbn in Hh. inversion Hh. subst a. apply (K _ U1 x); [rewrite E1; reflexivity|exact Hi].
+Qed.
+
+Lemma default_command_vec_l sub : sub_spec_vec sub ->
+  forall ds c0 ops st' d,
+  configured ds (c_no_log c0) ops st' ->
+  In d ds -> d_internal d = false -> starts_dash (d_name d) = false ->
+  forall tos1 ws tos2, added_flags ops (tos1 ++ tos2) -> Forall word ws ->
+  ~ (vec_tokens tos1 ++ ws ++ vec_tokens tos2 = [] /\ c_help_if_no_args c0 = true) ->
+  (forall a, hd_error (vec_tokens tos1 ++ ws ++ vec_tokens tos2) = Some a -> ~ In a (keys st')) ->
+  (accepted (parse_args sub c0 st' (Some (d_name d)) (vec_tokens tos1 ++ ws ++ vec_tokens tos2)) <->
+   Forall (fun x => in_scope ds (fst x) (d_name d)) (tos1 ++ tos2) /\
+   (ws = [] \/ exists t p, In (t, KPos, p) ops /\ in_scope ds t (d_name d))) /\
+  forall n, parse_args sub c0 st' (Some (d_name d)) (vec_tokens tos1 ++ ws ++ vec_tokens tos2) = Ret n ->
+    ns_command n = d_name d /\
+    (forall o b, In (o, b) (ns_flags n) <->
+       (exists t, In (t, KFlag, o) ops /\ in_scope ds t (d_name d)) /\ b = mem o (map snd (tos1 ++ tos2))) /\
+    (ws <> [] -> exists p0 rest, ns_poss n = (p0, ws) :: rest /\
+       (exists t, In (t, KPos, p0) ops /\ in_scope ds t (d_name d)) /\ Forall (fun e => snd e = []) rest).
+Proof.
+  intros SV ds c0 ops st' d C Hd Hi Hdash tos1 ws tos2 HA HW Hne Hk.
+  rewrite (default_command_guarded_l sub c0 st' (d_name d) _ Hne).
+  - split.
+    + apply option_scope_vec_l; assumption.
+    + intros n Hn.
+      destruct (vec_namespace_l sub SV ds c0 ops st' _ d C Hd Hi Hdash tos1 ws tos2 HA HW n Hn) as (N1 & N2 & N3 & _).
+      auto.
+  - intros a Ha. split; [|apply Hk; exact Ha].
+    eapply vec_head_not_help; eassumption.
+Qed.
+
+Lemma lookup_not_command a (st : state) pa :
+  lookup a st = Some pa -> ~ In a (command_names st) -> p_internal pa = true.
+Proof.
+  intros L H. destruct (p_internal pa) eqn:E; [reflexivity|]. exfalso. apply H.
+  apply lookup_some_in in L. unfold command_names, keys.
+  change a with (fst (a, pa)). apply in_map. apply filter_In. split; [exact L|]. cbn [snd]. rewrite E. reflexivity.
+Qed.
+
+(* the property's wording holds for every default command WITHOUT a positional:
+   a first argument that names an internal option set is rejected either way *)
+Lemma default_no_positional_l sub : sub_spec_vec sub ->
+  forall c0 (st : state) d pa argv,
+  lookup d st = Some pa -> p_internal pa = false -> p_poss pa = [] -> starts_dash d = false ->
+  ~ (argv = [] /\ c_help_if_no_args c0 = true) ->
+  (forall a, hd_error argv = Some a ->
+     ~ In a help_choices /\ ~ In a (command_names st) /\ (In a (keys st) -> word a)) ->
+  parse_args sub c0 st (Some d) argv = parse_args sub c0 st (Some d) (d :: argv).
+Proof.
+  intros SV c0 st d pa argv L Pi PP Hd Hne G.
+  destruct argv as [|a r].
+  - apply default_command_guarded_l; [exact Hne|]. intros a [=].
+  - destruct (G a eq_refl) as (G1 & G2 & G3).
+    destruct (mem a (keys st)) eqn:Ek.
+    + apply mem_In in Ek. specialize (G3 Ek). unfold word in G3.
+      destruct (lookup_in_some _ _ Ek) as (pi & Li).
+      pose proof (lookup_not_command a st pi Li G2) as Ii.
+      rewrite (parse_args_command sub c0 st (Some d) d (a :: r) pa Hd L Pi).
+      rewrite PP, (sv_word_no_pos sub SV _ _ _ a r G3).
+      unfold parse_args. apply mem_In in Ek. rewrite Ek, orb_true_r.
+      unfold main_parse. rewrite G3, Li, Ii. reflexivity.
+    + apply mem_false in Ek. apply default_command_guarded_l; [exact Hne|].
+      intros a' [= <-]. auto.
+Qed.
+
+(* ... and fails for every default command WITH a positional, on the vector
+   that consists of the name of an internal option set *)
+Lemma default_internal_name_disagrees_l sub : sub_spec_vec sub ->
+  forall c0 (st : state) d pa s ps,
+  lookup d st = Some pa -> p_internal pa = false -> p_poss pa <> [] -> starts_dash d = false ->
+  lookup s st = Some ps -> p_internal ps = true -> word s ->
+  parse_args sub c0 st (Some d) [s] = Raise SystemExit /\
+  accepted (parse_args sub c0 st (Some d) [d; s]).
+Proof.
+  intros SV c0 st d pa s ps L Pi PP Hd Ls Is Ws. split.
+  - unfold parse_args.
+    assert (mem s (keys st) = true) as ->.
+    { apply mem_In. apply lookup_some_in in Ls. apply (in_map fst) in Ls. exact Ls. }
+    rewrite orb_true_r. unfold main_parse. unfold word in Ws. rewrite Ws, Ls, Is. reflexivity.
+  - apply (accepted_command sub c0 st (Some d) d [s] pa Hd L Pi).
+    pose proof (sv_accept sub SV (c_no_log c0) (p_flags pa) (p_poss pa) (p_vals pa) [] [s] []) as A.
+    cbn [map app] in A. apply A; [constructor|constructor|repeat constructor; exact Ws|].
+    split; [constructor|right; exact PP].
+Qed.
+
+(* ------------------------------------------------------------------ *)
+(* options that take a value                                            *)
+
+(* no name of an add_argument call contains '=' *)
+Definition plain_names (ops : list op) : Prop := Forall (fun x => ~ In ch_eq (op_name x)) ops.
+
+Lemma value_option_scope_l sub : sub_spec_vec sub ->
+  forall ds c0 ops st' dflt d,
+  configured ds (c_no_log c0) ops st' ->
+  In d ds -> d_internal d = false -> starts_dash (d_name d) = false ->
+  forall t o v, In (t, KVal, o) ops -> ~ In ch_eq o -> word v ->
+  (accepted (parse_args sub c0 st' dflt [d_name d; flag_str o; v]) <-> in_scope ds t (d_name d)) /\
+  (forall n, parse_args sub c0 st' dflt [d_name d; flag_str o; v] = Ret n ->
+     ns_command n = d_name d /\
+     forall o' x, In (o', x) (ns_vals n) <->
+       (exists t', In (t', KVal, o') ops /\ in_scope ds t' (d_name d)) /\ x = (if str_eqb o' o then Some v else None)) /\
+  (plain_names ops ->
+   (accepted (parse_args sub c0 st' dflt [d_name d; flag_str o ++ ch_eq :: v]) <-> in_scope ds t (d_name d)) /\
+   (forall n, parse_args sub c0 st' dflt [d_name d; flag_str o ++ ch_eq :: v] = Ret n ->
+      ns_command n = d_name d /\
+      forall o' x, In (o', x) (ns_vals n) <->
+        (exists t', In (t', KVal, o') ops /\ in_scope ds t' (d_name d)) /\ x = (if str_eqb o' o then Some v else None))).
+Proof.
+  intros SV ds c0 ops st' dflt d C Hd Hi Hdash t o v Ho Heq Hv.
+  destruct (configured_command_full ds _ ops st' d C Hd Hi) as (pa & L & Pi & Fl).
+  assert (user_flag (c_no_log c0) o) as U.
+  { split; [eapply configured_user_flag; [exact C|exact Ho|reflexivity]|exact Heq]. }
+  assert (~ In o (p_flags pa)) as NF.
+  { intros H. apply (Fl KFlag) in H. destruct H as (t' & H1 & _).
+    destruct (configured_kind ds _ ops st' _ _ _ _ _ C Ho H1) as (_ & [=]). }
+  assert (In o (p_vals pa) <-> in_scope ds t (d_name d)) as SC.
+  { rewrite (Fl KVal o). split.
+    - intros (t' & H1 & H2). destruct (configured_kind ds _ ops st' _ _ _ _ _ C Ho H1) as (-> & _). exact H2.
+    - intros S. eauto. }
+  assert (forall V' (f : str -> option str) o' x,
+            V' = p_vals pa ->
+            (In (o', x) (map (fun y => (y, f y)) V') <->
+             (exists t', In (t', KVal, o') ops /\ in_scope ds t' (d_name d)) /\ x = f o')) as NSV.
+  { intros V' f o' x ->. rewrite in_map_iff. split.
+    - intros (y & [= <- <-] & Hy). split; [apply (Fl KVal); exact Hy|reflexivity].
+    - intros (Hy & ->). exists o'. split; [reflexivity|apply (Fl KVal); exact Hy]. }
+  split; [|split].
+  - rewrite (accepted_command sub c0 st' dflt _ _ pa Hdash L Pi).
+    rewrite (proj1 (sv_value sub SV _ (p_flags pa) (p_poss pa) (p_vals pa) o v U NF Hv)). exact SC.
+  - intros n. rewrite (parse_args_command sub c0 st' dflt _ _ pa Hdash L Pi).
+    destruct (sub (c_no_log c0) (p_flags pa) (p_poss pa) (p_vals pa) [flag_str o; v]) as [s|] eqn:E; [|discriminate].
+    intros [= <-]. cbn [finish ns_command ns_vals]. split; [reflexivity|].
+    rewrite (proj2 (sv_value sub SV _ _ _ _ o v U NF Hv) s E).
+    intros o' x. apply (NSV _ (fun y => if str_eqb y o then Some v else None)). reflexivity.
+  - intros PN.
+    assert (no_eq_names (p_flags pa) (p_vals pa)) as NE.
+    { intros x [H|H]; [apply (Fl KFlag) in H|apply (Fl KVal) in H]; destruct H as (t' & H1 & _);
+        unfold plain_names in PN; rewrite Forall_forall in PN; exact (PN _ H1). }
+    split.
+    + rewrite (accepted_command sub c0 st' dflt _ _ pa Hdash L Pi).
+      rewrite (proj1 (sv_value_eq sub SV _ (p_flags pa) (p_poss pa) (p_vals pa) o v U NE)). exact SC.
+    + intros n. rewrite (parse_args_command sub c0 st' dflt _ _ pa Hdash L Pi).
+      destruct (sub (c_no_log c0) (p_flags pa) (p_poss pa) (p_vals pa) [flag_str o ++ ch_eq :: v]) as [s|] eqn:E; [|discriminate].
+      intros [= <-]. cbn [finish ns_command ns_vals]. split; [reflexivity|].
+      rewrite (proj2 (sv_value_eq sub SV _ _ _ _ o v U NE) s E).
+      intros o' x. apply (NSV _ (fun y => if str_eqb y o then Some v else None)). reflexivity.
 Qed.
